@@ -883,14 +883,26 @@ def rule_limit_installed(ctx, px):
             if not (isinstance(c, ast.Call) and ast.unparse(c.func).split(".")[-1] == "LimitEmptyLines" and c.args):
                 continue
             k += 1
-            arg = ast.unparse(pyfront.subst_locals(f.node, c.args[0])).replace(" ", "")
-            raw = ast.unparse(c.args[0]).replace(" ", "")
+
+            class _GA(ast.NodeTransformer):      # getattr(x, "name"[, None]) reads the same thing as x.name
+                def visit_Call(self, node):
+                    self.generic_visit(node)
+                    if isinstance(node.func, ast.Name) and node.func.id == "getattr" and len(node.args) in (2, 3) and isinstance(node.args[1], ast.Constant) \
+                            and isinstance(node.args[1].value, str):
+                        return ast.Attribute(value=node.args[0], attr=node.args[1].value, ctx=ast.Load())
+                    return node
+
+            def canon(e_):
+                import copy
+                return ast.unparse(_GA().visit(copy.deepcopy(e_))).replace(" ", "")
+            arg = canon(pyfront.subst_locals(f.node, c.args[0]))
+            raw = canon(c.args[0])
             gd = pyfront.guards_of(f.node, c) or ()
             bad = []
             for t_, pol in gd:
                 for e, p_ in pyfront.guard_terms([(t_, pol)]):
-                    e1 = e.replace(" ", "")
-                    e2 = ast.unparse(pyfront.subst_locals(f.node, ast.parse(e, mode="eval").body)).replace(" ", "") if e else e1
+                    e1 = canon(ast.parse(e, mode="eval").body) if e else ""
+                    e2 = canon(pyfront.subst_locals(f.node, ast.parse(e, mode="eval").body)) if e else e1
                     if p_ and (e1 in (arg, raw, f"bool({arg})", f"bool({raw})", f"{raw}>0", f"{arg}>0", f"{raw}!=0", f"{arg}!=0") or e2 in (arg, f"bool({arg})", f"{arg}>0", f"{arg}!=0")):
                         bad.append(e)
                     if not p_ and e1 in (f"not{raw}", f"not{arg}", f"{raw}==0", f"{arg}==0"):
